@@ -229,6 +229,8 @@ class C17(Property):
                                     (3, "with"), (1, "with-exc")]),
           "api": W.weighted("api", [(5, None), (1, "jack")]),
           "gchunk": gchunk,
+          # a second, independent manager with its own player, alive all along
+          "second_manager": W.chance("aio2", 1, 4),
           "after": {"close2": bool(W.choose("close2", 2)),
                     "play_after": bool(W.choose("pafter", 2))},
           "knobs": knobs}
@@ -571,6 +573,11 @@ class C17(Property):
       if workload.get("gchunk"):
         type(lio.chunks).size = workload["gchunk"]
       api = workload.get("api")
+      aio2 = None
+      if workload.get("second_manager"):
+        aio2 = lio.AudioIO(True)
+        ctl["aio2_thread"] = aio2.play([9.5, 8.5, 7.5], chunk_size=2)
+        res.counters["probe.two-managers-alive"] += 1
       aio = lio.AudioIO(workload["wait"], api=api) if api else \
         lio.AudioIO(workload["wait"])
       ctx = workload["ctx"]
@@ -598,6 +605,12 @@ class C17(Property):
           aio.close()
       sched.leave_phase2()
       outcome["close_returned_at"] = len(world.history)
+      if aio2 is not None:
+        outcome["aio2_alive_after_first_close"] = \
+          world.managers[0].terminated == 0
+        aio2.close()
+        aio2.finished = True
+        outcome["close_returned_at"] = len(world.history)
       outcome["alive_after_close"] = [i for i, th in enumerate(ctl["players"])
                                       if th.is_alive()]
       outcome["writes_at_close"] = [len(th.stream.writes)
@@ -833,6 +846,19 @@ class C17(Property):
       if outcome.get("writes_at_close", [nwr] * (p + 1))[p] != nwr:
         return V("device-protocol", "write-after-manager-close",
                  "player%d wrote after close() returned" % p)
+    # --- the second manager is independent of the first
+    th2 = ctl.get("aio2_thread")
+    if th2 is not None:
+      got = []
+      for data, nframes in th2.stream.writes:
+        got.extend(struct.unpack("%df" % (len(data) // 4), data))
+      if got != [9.5, 8.5, 7.5, 0.0] or th2.stream.closed != 1 or \
+         outcome.get("aio2_alive_after_first_close") is False:
+        return V("shutdown", "second-manager-disturbed",
+                 "the other manager's player delivered %r, its stream was "
+                 "closed %d times, terminated early: %r"
+                 % (got, th2.stream.closed,
+                    outcome.get("aio2_alive_after_first_close") is False))
     # --- recording streams: what the input device was opened with
     for rspec, rst, rec in ctl.get("rec_specs", []):
       okw = rst.kwargs
@@ -866,14 +892,18 @@ class C17(Property):
       if m.terminated != 1:
         return V("shutdown", "terminated-%d-times" % m.terminated,
                  "backend terminated %d times" % m.terminated)
-    tseq = [s for s, k, sid, _ in hist if k == "terminate"]
-    cseq = [s for s, k, sid, _ in hist if k == "close"]
     cra = outcome.get("close_returned_at", 0)
-    if tseq and any(tseq[0] < c < cra for c in cseq):
-      return V("shutdown", "terminate-before-last-close",
-               "terminate at event %d, a stream closed later" % tseq[0])
-    if tseq and tseq[0] >= cra:
-      return V("shutdown", "terminate-after-close-returned", "")
+    for m in world.managers:
+      tseq = [sq for sq, k, sid, _ in hist
+              if k == "terminate" and sid == "m%d" % m.mid]
+      mine = set(st.sid for st in world.streams if st.manager is m)
+      cseq = [sq for sq, k, sid, _ in hist if k == "close" and sid in mine]
+      if tseq and any(tseq[0] < c < cra for c in cseq):
+        return V("shutdown", "terminate-before-last-close",
+                 "terminate at event %d, a stream of the same manager closed "
+                 "later" % tseq[0])
+      if tseq and tseq[0] >= cra:
+        return V("shutdown", "terminate-after-close-returned", "")
     if outcome.get("alive_after_close"):
       return V("shutdown", "player-alive-after-close",
                "players %r alive" % outcome["alive_after_close"])
